@@ -12,7 +12,7 @@ func init() {
 		ID:        "C32",
 		Roots:     []string{"overlord/snapshotstate/backend"},
 		Technique: "guarded-sink / ordering reachability on the SSA CFG of unpackVerifySnapshotImport, Import, Reader.Restore and moveFile; argument provenance of the created path; who-may-create-files check",
-		Explanation: "Structural necessary conditions for 'snapshot import and restore cannot escape or corrupt snap data': (R1) unpackVerifySnapshotImport creates files only through writeOneSnapshotFile, reached only for non-directory entries whose name does not contain '../', at a path that is path.Join(dirs.SnapshotsDir, Sprintf(\"%d_%s\", realSetID, <name suffix>)); (R2) Reader.Restore reaches moveFile only across tar success, size equality and digest equality, with size and digest taken from the tee that feeds tar, and tar extracting into the fresh MkdirTemp directory; (R3) the deferred undo is registered before any move, runs RestoreState.Revert whenever the named error is non-nil, and a failed move never returns a nil error; (R4) Import commits the import transaction only after unpack/verify succeeded and registers Cancel before unpacking; (R5) moveFile records every directory it moves aside or creates exactly when the rename succeeded (the data Revert works from).",
+		Explanation: "Structural necessary conditions for 'snapshot import and restore cannot escape or corrupt snap data': (R1) unpackVerifySnapshotImport creates files only through writeOneSnapshotFile, reached only for non-directory entries whose name does not contain '../', at a path that is path.Join(dirs.SnapshotsDir, Sprintf(\"%d_%s\", realSetID, <name suffix>)); (R2) Reader.Restore reaches moveFile only across tar success, size equality and digest equality, with size and digest taken from the tee that feeds tar, and tar extracting into the fresh MkdirTemp directory; (R3) the deferred undo is registered before any move, runs RestoreState.Revert whenever the named error is non-nil, and a failed move never returns a nil error; (R4) Import commits the import transaction only after unpack/verify succeeded and registers Cancel before unpacking; (R5) moveFile records every directory it moves aside or creates exactly when the rename succeeded (the data Revert works from). (R6) every temporary unpack directory of Reader.Restore has its removal deferred (on that very directory) before the archive member is unpacked into it.",
 		NotDecided: "what the external tar does with hostile archives inside the temporary directory; RestoreState.Revert's own correctness; path.Join's cleaning of the attacker-controlled suffix beyond the '../' test.",
 		Run:        runC32,
 	})
@@ -242,6 +242,72 @@ func runC32(c *Ctx) {
 	}
 
 	// ---- R4
+	c.Rule("C32-R6", "O", "Reader.Restore: every temporary unpack directory has os.RemoveAll(thatDirectory) deferred right after it was created", 1)
+	mkTemp = P.FuncObj("os.MkdirTemp")
+	rmAll2 := P.FuncObj("os.RemoveAll")
+	restoreFn := P.Func("overlord/snapshotstate/backend.(*Reader).Restore")
+	nTmp := 0
+	for _, mc := range CallSites(restoreFn, mkTemp) {
+		nTmp++
+		isTemp := func(v ssa.Value, in *ssa.Function) bool {
+			// the MkdirTemp result itself, or a load of the variable holding it (captured by the closure)
+			if VRes(0, func(ci ssa.CallInstruction) bool { return ci == mc })(v) {
+				return true
+			}
+			if u, ok := v.(*ssa.UnOp); ok {
+				var cell *ssa.Alloc
+				switch x := u.X.(type) {
+				case *ssa.Alloc:
+					cell = x
+				case *ssa.FreeVar:
+					cell = freeVarCell(v, in, restoreFn)
+				}
+				if cell != nil {
+					n, ok := 0, false
+					for _, r := range *cell.Referrers() {
+						if st, isSt := r.(*ssa.Store); isSt && st.Addr == ssa.Value(cell) {
+							n++
+							ok = VRes(0, func(ci ssa.CallInstruction) bool { return ci == mc })(st.Val)
+						}
+					}
+					return n == 1 && ok
+				}
+			}
+			return false
+		}
+		var def ssa.Instruction
+		for _, b := range restoreFn.Blocks {
+			for _, in := range b.Instrs {
+				d, ok := in.(*ssa.Defer)
+				if !ok {
+					continue
+				}
+				if _, is := IsCallTo(d, rmAll2); is && isTemp(d.Call.Args[0], restoreFn) {
+					def = in
+				}
+				if cl := StaticFn(d); cl != nil && cl.Parent() == restoreFn {
+					for _, rc := range CallSites(cl, rmAll2) {
+						if isTemp(rc.Common().Args[0], cl) {
+							def = in
+						}
+					}
+				}
+			}
+		}
+		if def == nil {
+			c.Violated(fmt.Sprintf("backend.(*Reader).Restore#tempdir-cleanup#%d", nTmp), mc.Pos(), "no deferred os.RemoveAll on the directory returned by os.MkdirTemp (e.g. the deferred call sees a different, shadowed variable): after a failed restore the unverified unpacked data stays inside the snap's data directory")
+			continue
+		}
+		// registered before the archive member is opened / unpacked into it
+		zip := P.FuncObj("overlord/snapshotstate/backend.zipMember")
+		for i, zc := range CallSites(restoreFn, zip) {
+			c.Before(fmt.Sprintf("backend.(*Reader).Restore#tempdir-cleanup-before-unpack#%d.%d", nTmp, i+1), restoreFn, SinkIs(def), "defer os.RemoveAll(tempdir)", zc, &GOpt{From: LocOf(mc)})
+		}
+	}
+	if nTmp == 0 {
+		c.Undecided("backend.(*Reader).Restore#tempdir", restoreFn.Pos(), "os.MkdirTemp not found in Restore")
+	}
+
 	c.Rule("C32-R4", "G+O", "Import: tr.Commit() <= unpackVerifySnapshotImport err==nil; tr.Cancel() deferred before unpacking", 2)
 	imp := P.Func(pkg + ".Import")
 	commit := P.FuncObj(pkg + ".(*importTransaction).Commit")
